@@ -115,6 +115,16 @@ def scenarios() -> Dict[str, Tuple[Scenario, Dict[Any, Any]]]:
         ("r2", "call_function", ADD, ("%r1", "%o"), {}),
         ("output", "output", "output", (("%r2",),), {}),
     ], {})
+    S["branch that starts and ends with a plain add"] = ([
+        ("x", "placeholder", "x", (), {}), ("pos", "placeholder", "pos", (), {}), ("d", "placeholder", "d", (), {}),
+        ("w", "get_attr", "w", (), {}),
+        ("s0", "call_function", ADD, ("%x", "%pos"), {}),  # plain add that *starts* the branch (consumes the skip tensor)
+        ("f", "call_function", E(F + "linear"), ("%s0", "%w", None), {}),
+        ("g", "call_function", E(F + "gelu"), ("%f",), {}),
+        ("e0", "call_function", ADD, ("%g", "%d"), {}),  # plain add that *ends* the branch
+        ("r", "call_function", ADD, ("%x", "%e0"), {}),  # residual: skip = x
+        ("output", "output", "output", (("%r",),), {}),
+    ], {})
     return S
 
 
@@ -402,7 +412,7 @@ def check(report: Report, repo: Repo) -> None:
         d = first_diff(got, exp) if got is not None else "no output"
         report.add("R1-rewrite", cons, got == exp, f"[{sname}] rewritten graph must equal the recipe; first difference: {d}", str(got)[:500], str(exp)[:500])
         report.add("R1-lint", cons, g.linted >= 1, f"[{sname}] graph.lint() runs on the result", g.linted, ">=1", nontrivial=False)
-    report.floor("scenario graphs executed", n_sc, 6)
+    report.floor("scenario graphs executed", n_sc, 7)
 
     # ---- R3 unit_scale(): copy, reorder, re-initialise (run for real on an abstract module)
     it3 = Interp(repo)
